@@ -26,6 +26,17 @@ CHECKS = {
             'Trusts the span checker (pv/spans.py, plain integer arithmetic on public attributes) '
             'and that % / \\ are the comment / escape characters.',
             'DESIGN.md 5 C01'),
+    'C02': ('exploration',
+            'grammar-based generation with a known AST (Hypothesis) + exhaustive derivations over '
+            'a base catalogue; oracle = structure derived from the AST',
+            'Tens of thousands of generated documents and all derivations of <= 2 (quick) / <= 3 '
+            '(thorough) items over ~55 / ~35-item catalogues covering every declared-slot pattern, '
+            'argument form and adjacency class, under the default context and three '
+            'every-argument-type contexts; the normalised strict parse must equal the written '
+            'structure slot by slot.',
+            'Generator construction rules (DESIGN 3.3) are preconditions enforced by construction; '
+            'one known finding (nested bracket groups) is attributed by a differential AST variant.',
+            'DESIGN.md 5 C02'),
     'C04': ('exploration',
             'Hypothesis (string, rule-list configuration) pairs against a reference model of the '
             'documented encoding loop; concatenation law; partial-encoder model; cached-helper '
